@@ -406,6 +406,16 @@ func (x *seqExec) doListing(seed uint64) {
 		}
 		prefixes = append(prefixes, p)
 	}
+	// any order, and the levels above the buckets once more at the end: an upper listing that follows a
+	// bucket-level listing of a bucket written since the previous upper listing must still be recomputed
+	for i := len(prefixes) - 1; i > 0; i-- {
+		j := r.Intn(i + 1)
+		prefixes[i], prefixes[j] = prefixes[j], prefixes[i]
+	}
+	prefixes = append(prefixes, []int{})
+	if x.plan.Cfg.depth() > 1 && len(x.m.Keys) > 0 {
+		prefixes = append(prefixes, digitsOf(hf(x.m.Keys[r.Intn(len(x.m.Keys))].Key), 16)[:1])
+	}
 	for _, p := range prefixes {
 		got, ok := x.fetchListing(prefixString(p))
 		if !ok {
